@@ -205,6 +205,8 @@ def ma_cases(tier):
             if order <= 2:
                 out.append((r, (), (), ("B",)))
                 out.append((r, ("A",), (), ("C", "C")))
+    # the same reactant multiset written with its repeats apart
+    out += [(("A", "B", "A"), ("C",), (), ()), (("B", "A", "B", "A"), ("C",), (), ())]
     # delayed reactants (the delayed part consumes something): expected to be the known finding
     out += [(("A",), (), ("A",), ("B",)), (("A",), (), ("B",), ()), (("A", "A"), ("C",), ("A",), ())]
     return out
